@@ -33,7 +33,7 @@ PAIRS = [(d, f) for d in range(6) for f in range(6)]
 def plan(tier, seed):
     if tier == "quick":
         return [{"kind": "exh", "i": i, "n": 16, "max_obj": 4, "max_sp": 4, "npairs": 36, "nthl": 1, "nrand": 8} for i in range(16)]
-    specs = [{"kind": "exh", "i": i, "n": 48, "max_obj": 5, "max_sp": 4, "npairs": 12, "nthl": 1, "nrand": 250} for i in range(48)]
+    specs = [{"kind": "exh", "i": i, "n": 48, "max_obj": 5, "max_sp": 4, "npairs": 12, "nthl": 1, "nrand": 250, "map6_sp": 5} for i in range(48)]
     return specs
 
 
@@ -144,6 +144,19 @@ def check_input(ctx, Gn, Sn, lm, pairs, thl_pairs):
         ctx.sample(case0)
 
 
+def check_mapping_only(ctx, Gn, Sn, lm):
+    """Light variant for the large exhaustive level: the mapping (every node at the LCA of the species of its leaves)
+    and validity only."""
+    case0 = {"kind": "lca", "G": Gn, "S": Sn, "leafmap": lm, "costs": cost(1, 1)}
+    B = bridge.Built(case0)
+    obs = SC.call("lca", B.inp)
+    ctx.count("evaluations")
+    ctx.count("mon.mapping")
+    ctx.count("mon.mapping_only")
+    for mon, msg in judge_mapping(B, obs):
+        ctx.viol(f"C07.{mon}", case0, msg)
+
+
 def canaries(ctx):
     case = {"G": [["g0", "g1"], "g2"], "S": [["A", "B"], "C"], "leafmap": {"g0": "A", "g1": "B", "g2": "A"}, "costs": cost(1, 1)}
     B = bridge.Built(case)
@@ -205,6 +218,24 @@ def run(ctx, spec):
         lm.update({g: f"s{rng.randrange(40)}" for g in early})
         ctx.count("mon.huge_species_tree")
         check_input(ctx, Gn, Sn, lm, [], [])
+    # bounded-exhaustive at the next size for the mapping alone: every 6-leaf object tree on every species tree with
+    # up to 4 (thorough: 5) leaves, every leaf assignment
+    xi = 0
+    for Gn, Sn, lm in gen.exhaustive_inputs(6, spec.get("map6_sp", 4)):
+        if len(lm) < 6:
+            continue
+        xi += 1
+        if xi % spec["n"] != spec["i"]:
+            continue
+        check_mapping_only(ctx, Gn, Sn, lm)
+        if ctx.too_many():
+            return
+    for _ in range(spec.get("nblock", 120)):
+        Gn, Sn, lm = gen.block_dup_input(rng)
+        ctx.count("block_duplication_cases")
+        check_input(ctx, Gn, Sn, lm, rng.sample(PAIRS, 2), [])
+        if ctx.too_many():
+            return
     for _ in range(spec["nrand"]):
         Gn, Sn, lm = gen.random_input(rng, 10, 8, min_obj=5, min_sp=3)
         check_input(ctx, Gn, Sn, lm, rng.sample(PAIRS, 4), rng.sample(PAIRS, 2))
